@@ -390,9 +390,9 @@ func (rr *runRec) buildDec(bi int, side string, ord int, d DecSpec) decor.Decora
 	case "avgspeed":
 		x = decor.AverageSpeed(0, "(%.1f)", wc)
 	case "ewmaeta":
-		x = decor.EwmaETA(decor.ET_STYLE_GO, 30, wc)
+		x = decor.EwmaETA(decor.ET_STYLE_GO, float64(d.W*10), wc) // ages 0 (the default), 30, 80
 	case "ewmaspeed":
-		x = decor.EwmaSpeed(0, "(%.1f)", 30, wc)
+		x = decor.EwmaSpeed(0, "(%.1f)", float64(d.W*10), wc)
 	case "spindec":
 		x = decor.Spinner([]string{"(-)", "(+)", "(|)", "(*)"}, wc)
 	case "emptyname":
